@@ -4,7 +4,7 @@
 From Coq Require Import String.
 From Coq Require Import List Bool NArith ZArith.
 Import ListNotations.
-From LCC Require Import Base.Util Model.PyVal Model.Matcher gen.TablesMatchers Proofs.MatcherP.
+From LCC Require Import Base.Util Model.PyVal Model.Matcher gen.TablesMatchers Proofs.MatcherP Model.OpsIn Proofs.OpsInP.
 
 (* For every matcher expression (any nesting depth) and every actual value, the verdict of matches() is the truth value
    the expression denotes when read with Python's operators (PyVal) and the connectives not / and / or (sem):
@@ -188,4 +188,62 @@ Example C16_witness_operations :
   require_that FrdSlice (VInt 3) m true = ([{| ck_ok := false; ck_details := DNone |}], Raises AbortTest) /\
   assert_that FrdSlice (VInt 1) m false = ([], Returns true) /\
   assert_that FrdSlice (VInt 3) (equal_to (VInt 1)) false = ([{| ck_ok := false; ck_details := DText |}], Raises AbortTest).
+Proof. vm_compute. repeat split. Qed.
+
+(* ---- the dict operations check_that_in / require_that_in / assert_that_in (operations.py; Model/OpsIn.v: the expected
+   structure — key / matcher pairs or nested lists and dicts with matchers at the leaves —, the generator that walks it, the
+   list comprehension that runs one operation per (key path, matcher) pair; executed in a real test and compared with
+   OpsIn.that_in on every run). [ys] is what the generator yields, [ending] how it ends (None, or the exception raised for a
+   malformed structure, after the pairs before it have been processed). ---- *)
+
+(* check_that_in: when no matcher raises, exactly one check per pair, in order, carrying the verdict of
+   has_entry(path, matcher) on the actual value, and these verdicts are returned; a match that fails never raises *)
+Theorem C16_check_that_in_contract : forall actual quiet ys ending,
+  (forall y, In y ys -> exists ok d, matches (he y) actual = Ok (ok, d)) ->
+  run_ops (check_that frd_of_source) actual quiet ys ending =
+    (flat_map (the_check actual quiet) ys,
+     match ending with None => ReturnsAll (map (the_verdict actual) ys) | Some e => RaisesIn e end).
+Proof. exact check_that_in_contract. Qed.
+Print Assumptions C16_check_that_in_contract.
+
+(* ... and an exception that escapes from check_that_in is the generator's (malformed structure) or one a matcher raised *)
+Theorem C16_check_that_in_raises_only_if_matching_raises : forall actual quiet ys ending cs e,
+  run_ops (check_that frd_of_source) actual quiet ys ending = (cs, RaisesIn e) ->
+  ending = Some e \/ exists y, In y ys /\ matches (he y) actual = Err e.
+Proof. exact check_that_in_raises_only_if_matching_raises. Qed.
+Print Assumptions C16_check_that_in_raises_only_if_matching_raises.
+
+(* require_that_in: raises AbortTest at the first pair that does not match; that check and those before it are recorded,
+   nothing after it is evaluated; when every pair matches it records one successful check per pair and returns *)
+Theorem C16_require_that_in_first_failure : forall actual quiet done y rest ending d,
+  (forall x, In x done -> exists dx, matches (he x) actual = Ok (true, dx)) ->
+  matches (he y) actual = Ok (false, d) ->
+  run_ops (require_that frd_of_source) actual quiet (done ++ y :: rest) ending =
+    (flat_map (the_check actual quiet) (done ++ [y]), RaisesIn AbortTest).
+Proof. exact require_that_in_first_failure. Qed.
+Print Assumptions C16_require_that_in_first_failure.
+Theorem C16_require_that_in_all_match : forall actual quiet ys,
+  (forall x, In x ys -> exists dx, matches (he x) actual = Ok (true, dx)) ->
+  run_ops (require_that frd_of_source) actual quiet ys None =
+    (flat_map (the_check actual quiet) ys, ReturnsAll (map (fun _ => true) ys)).
+Proof. exact require_that_in_all_match. Qed.
+Print Assumptions C16_require_that_in_all_match.
+
+(* assert_that_in: nothing recorded for the pairs that match; the first that does not records one failed check and raises *)
+Theorem C16_assert_that_in_first_failure : forall actual quiet done y rest ending d,
+  (forall x, In x done -> exists dx, matches (he x) actual = Ok (true, dx)) ->
+  matches (he y) actual = Ok (false, d) ->
+  run_ops (assert_that frd_of_source) actual quiet (done ++ y :: rest) ending =
+    ([{| ck_ok := false; ck_details := if quiet then DNone else d |}], RaisesIn AbortTest).
+Proof. exact assert_that_in_first_failure. Qed.
+Print Assumptions C16_assert_that_in_first_failure.
+
+(* non-vacuity: a nested structure with a list index and two dict keys; the second leaf fails *)
+Example C16_that_in_witness :
+  let a := VDict [(KStr (str_of "a"%string), VList [VInt 1; VInt 5]); (KStr (str_of "b"%string), VInt 2)] in
+  let args := ASingle (EDict [(VStr (str_of "a"%string), EList [EMatcher (equal_to (VInt 1)); EMatcher (equal_to (VInt 2))]);
+                              (VStr (str_of "b"%string), EMatcher (equal_to (VInt 2)))]) in
+  snd (that_in (check_that frd_of_source) a args (VList []) false) = ReturnsAll [true; false; true] /\
+  snd (that_in (require_that frd_of_source) a args (VList []) false) = RaisesIn AbortTest /\
+  length (fst (that_in (require_that frd_of_source) a args (VList []) false)) = 2.
 Proof. vm_compute. repeat split. Qed.
